@@ -1198,7 +1198,7 @@ func isPurePredicate(f *ssa.Function, depth int) bool {
 					return false
 				}
 				switch sc.Name() {
-				case "Size", "Len", "CanPush", "CanAccept", "Capacity":
+				case "Size", "Len", "CanPush", "CanAccept", "Capacity", "Stages", "Peek", "Elements":
 					continue
 				}
 				if sc.Pkg != f.Pkg || !isPurePredicate(origin(sc), depth+1) {
